@@ -205,6 +205,8 @@ var MapRichDocs = []string{
 	`{"additionalProperties":{"type":"integer"},"propertyNames":{"maxLength":2,"pattern":"^[a-q]"},"patternProperties":{"^a":{"type":["string","integer"]},"b$":{"minimum":1}},"properties":{"c":{"type":"array"}}}`,
 	// defaults only below properties that have none themselves (containers are created on the way), several per level
 	`{"properties":{"r":{"properties":{"b":{"default":2},"a":{"default":1},"c":{"properties":{"z":{"default":[1]},"y":{"default":{"k":1}}}}}},"s":{"properties":{"a":{"properties":{"a":{"default":null}}}},"required":["zz"]},"t":{"properties":{"q":{"default":1}},"required":["q"]}}}`,
+	// one malformed member among well-formed ones: refused under every visiting order
+	`{"dependencies":{"b":["c"],"a":[1],"d":{"type":"integer"}},"properties":{"p":{"dependencies":{"x":5,"y":["z"]}}}}`,
 	// unevaluatedItems after contains / prefixItems in several in-place branches
 	`{"anyOf":[{"prefixItems":[true]},{"contains":{"const":9}},{"contains":{"const":2}}],"oneOf":[{"minItems":0},{"maxItems":0}],"unevaluatedItems":{"type":"integer","maximum":5}}`,
 }
@@ -245,7 +247,7 @@ func Run(r *ev.Run) {
 		depth = 4
 	}
 	r.Rule(fmt.Sprintf("subjects: every %d-th document of G-schema/2020 and G-schema/07 as unmarshalled Go values, map-rich documents (2-3 entries at every map-ranging site, unsorted lists), G-goschema trees and a Go literal. For each subject: the initial-state result of every operation {Marshal, CloneSchemas+Marshal, Resolve, Resolve(ValidateDefaults), Validate(i) for each of %d instances (10 values, each also in two non-canonical representations) on the oldest and on the newest Resolved}; then EVERY sequence of <=%d operations on one Schema value: each operation's result must equal its initial-state result, the deep snapshot (pointer graph, exported fields, map and slice contents) of the Schema tree must never change, and the instance snapshot must be unchanged by Validate. states = distinct (subject, snapshot, result) states reached (must be 1 per subject), transitions = operations executed. Finally the digest of the whole result table is recomputed in 3 fresh processes (fresh map seeds, fresh hash seeds) and must be identical. Non-trivial = every operation sequence", stride(thorough), len(insts), depth))
-	r.Assume("error texts are not compared (they may name whichever failing keyword is met first)", "documents handed out by a Loader are inputs as well: every sequence of <=3 (4) Resolve calls of six roots (both drafts, two bases) through one caching loader must reproduce the fresh-loader results and leave the cached documents unchanged", "map-iteration orders and hash seeds are owned and enumerated in the instrumented build (C14 env part); the fresh-process digests are a confirmation on the uninstrumented binary")
+	r.Assume("error texts are not compared (they may name whichever failing keyword is met first)", "documents handed out by a Loader are inputs as well: every sequence of <=3 (4) Resolve calls of six roots (both drafts, two bases) through one caching loader (each optionally with a transient Loader fault on one of three URIs) must reproduce the fresh-loader results and leave the cached documents unchanged", "map-iteration orders and hash seeds are owned and enumerated in the instrumented build (C14 env part); the fresh-process digests are a confirmation on the uninstrumented binary")
 	r.Set("subjects", len(subs))
 	var states, transitions atomic.Int64
 	table := make([]string, len(subs))
@@ -442,7 +444,10 @@ func Run(r *ev.Run) {
 // as any caching loader does) are inputs too. Every sequence of Resolve calls of roots of
 // different drafts and BaseURIs through ONE such loader must give each call the result it
 // gives with a fresh loader, and must leave the cached documents unchanged.
-func loaderHistories(r *ev.Run, thorough bool) int {
+func loaderHistories(r *ev.Run, thorough bool) int { return LoaderHistories(r, thorough, "") }
+
+// LoaderHistories is shared with C02 and C03 (prefix distinguishes their case keys).
+func LoaderHistories(r *ev.Run, thorough bool, prefix string) int {
 	docs := map[string]string{
 		"http://h/d.json":  `{"dependencies":{"a":["b"]},"items":[{"type":"string"}],"additionalItems":false,"properties":{"n":{"$ref":"e.json"}},"definitions":{"k":{"type":"integer"}}}`,
 		"http://h/f.json":  `{"definitions":{"k":{"$id":"#k","type":"integer"}},"properties":{"a":{"$ref":"#/definitions/k"}}}`, // a fragment-only $id: an anchor in draft-07, an error in 2020-12
@@ -463,11 +468,36 @@ func loaderHistories(r *ev.Run, thorough bool) int {
 	for _, t := range instTexts {
 		insts = append(insts, ref.MustParse(t).Plain())
 	}
+	// an operation is one Resolve (+ validations) of a root, optionally with a transient Loader
+	// fault on one URI (the loader fails for that URI during this call only, cached or not)
+	type opT struct {
+		root  int
+		fault string
+	}
+	var ops []opT
+	for i := range roots {
+		ops = append(ops, opT{i, ""})
+	}
+	for i := range roots {
+		for _, u := range []string{"http://h/d.json", "http://h/e.json", "http://h/f.json"} {
+			ops = append(ops, opT{i, u})
+		}
+	}
+	opName := func(o opT) string {
+		if o.fault == "" {
+			return roots[o.root].name
+		}
+		return roots[o.root].name + " [loader fault on " + o.fault + "]"
+	}
+	curFault := ""
 	newLoader := func() (func(*url.URL) (*jsonschema.Schema, error), map[string]*jsonschema.Schema, map[string]string) {
 		cache := map[string]*jsonschema.Schema{}
 		snap0 := map[string]string{} // snapshot of each document as first handed out
 		return func(u *url.URL) (*jsonschema.Schema, error) {
 			k := u.String()
+			if k == curFault {
+				return nil, fmt.Errorf("transient fault loading %s", k)
+			}
 			if s, ok := cache[k]; ok {
 				return s, nil
 			}
@@ -503,10 +533,12 @@ func loaderHistories(r *ev.Run, thorough bool) int {
 		}
 		return b.String()
 	}
-	initial := make([]string, len(roots))
-	for i, ro := range roots {
+	initial := make([]string, len(ops))
+	for i, o := range ops {
 		l, _, _ := newLoader()
-		initial[i] = op(ro, l)
+		curFault = o.fault
+		initial[i] = op(roots[o.root], l)
+		curFault = ""
 	}
 	depth := 3
 	if thorough {
@@ -520,15 +552,17 @@ func loaderHistories(r *ev.Run, thorough bool) int {
 			load, cache, pristine := newLoader()
 			names := make([]string, len(seq))
 			for i, k := range seq {
-				names[i] = roots[k].name
+				names[i] = opName(ops[k])
 			}
-			key := "loader history " + strings.Join(names, " ; ")
-			if r.OnlyKey == "" || r.OnlyKey == key {
+			key := prefix + "loader history " + strings.Join(names, " ; ")
+			if r.OnlyKey == "" || strings.HasPrefix(r.OnlyKey, key+" [") {
 				for step, k := range seq {
-					got := op(roots[k], load)
+					curFault = ops[k].fault
+					got := op(roots[ops[k].root], load)
+					curFault = ""
 					n++
 					if got != initial[k] {
-						r.Fail(key+" [verdicts]", map[string]any{"class": "Resolve through a caching loader depends on earlier Resolve calls", "step": step, "root": roots[k].text, "verdicts_with_fresh_loader": initial[k], "verdicts_in_this_history": got, "instances": instTexts})
+						r.Fail(key+" [verdicts]", map[string]any{"class": "Resolve through a caching loader depends on earlier Resolve calls", "step": step, "root": roots[ops[k].root].text, "verdicts_with_fresh_loader": initial[k], "verdicts_in_this_history": got, "instances": instTexts})
 						break
 					}
 					changed := false
@@ -547,7 +581,13 @@ func loaderHistories(r *ev.Run, thorough bool) int {
 		if len(seq) == depth {
 			return
 		}
-		for k := range roots {
+		for k := range ops {
+			if ops[k].fault != "" && len(seq) >= 2 && !thorough {
+				continue // quick: faults in the first two calls of a history only
+			}
+			if ops[k].fault != "" && len(seq) >= 3 {
+				continue
+			}
 			seq = append(seq, k)
 			rec()
 			seq = seq[:len(seq)-1]
